@@ -85,13 +85,25 @@ Section C12.
     exists fo. repeat split; auto.
   Qed.
 
-  (* _ignore_none of the source's own class dict is copied *)
+  (* _ignore_none as the source sees it -- set by its own class body, or else inherited from its bases --
+     is set in the derived class *)
   Theorem C12_ignore_none : forall g k o cn k',
-      base_ok g -> derive g k o cn = Ok k' -> k_ignore_none k' = k_ignore_none k.
+      base_ok g -> derive g k o cn = Ok k' ->
+      k_ignore_none k' = effective_ignore_none (bases_ignore_none g k) k.
   Proof.
     intros g k o cn k' Hb H. destruct (derive_spec re_match e gd g k o cn k' Hb H) as [ms [_ [_ [_ [_ [_ [_ [_ Hi]]]]]]]].
     exact Hi.
   Qed.
+
+  (* ... hence getattr(Derived, '_ignore_none', False) = getattr(Source, '_ignore_none', False): the derived
+     class ignores None for optional fields exactly when the source does *)
+  Theorem C12_ignore_none_effective : forall g k o cn k',
+      base_ok g -> resolve_ignore_none g [n_Structure] = false ->
+      find_klass g (k_name k) = Some k -> k_mro k = k_name k :: tl_str (k_mro k) ->
+      derived_name o cn k <> n_Structure ->
+      derive g k o cn = Ok k' ->
+      resolve_ignore_none (k' :: g) (k_mro k') = resolve_ignore_none g (k_mro k).
+  Proof. exact (derive_ignore_none_effective re_match e gd). Qed.
 
   (* Compositions of ANY length: the field list and the required list of the last class are the fold
      of the documented set operations over the operator list (induction over the list). *)
@@ -117,21 +129,14 @@ Section C12.
       forall n, n <> derived_name o cn k -> find_klass (k' :: g) n = find_klass g n.
   Proof. exact (derive_source_unchanged re_match e gd). Qed.
 
-  (* The one documented operator/source combination on which the code fails instead: a source with a
-     Constant member makes AllFieldsRequired raise AttributeError (getattr(v, "_default") without
-     fallback).  The full statement "every operator yields the documented class" is therefore kept as
-     a Definition and refuted below. *)
-  Definition C12_operators_total : Prop :=
-    forall g k o cn, base_ok g -> is_ok (doc_fields o (k_all k)) = true ->
-                     NoDup (field_names k) ->
-                     (forall s, derive_stmt k o cn = Ok s -> is_ok (define re_match e gd g s) = true) ->
-                     is_ok (derive g k o cn) = true.
-
-  Theorem C12_all_required_constant : forall g k cn,
-      no_consts (k_all k) = false -> derive g k OpAllRequired cn = Raise AttributeError.
-  Proof.
-    intros g k cn H. unfold Derive.derive, derive_stmt. rewrite (all_required_seed_const _ H). reflexivity.
-  Qed.
+  (* Every operator yields a class whenever the documented field set exists and the class dict it builds
+     is an acceptable class body: no operator / source combination fails on its own (a source with a
+     Constant member included: AllFieldsRequired lists the constant in _required, as the source does). *)
+  Theorem C12_operators_total : forall g k o cn,
+      is_ok (doc_fields o (k_all k)) = true ->
+      (forall s, derive_stmt (bases_ignore_none g k) k o cn = Ok s -> is_ok (define re_match e gd g s) = true) ->
+      is_ok (derive g k o cn) = true.
+  Proof. exact (derive_total re_match e gd). Qed.
 End C12.
 
 Print Assumptions C12_fields.
@@ -141,10 +146,11 @@ Print Assumptions C12_not_subclass.
 Print Assumptions C12_not_subclass_default_name.
 Print Assumptions C12_field_behaviour.
 Print Assumptions C12_ignore_none.
+Print Assumptions C12_ignore_none_effective.
 Print Assumptions C12_compose.
 Print Assumptions C12_bad_name.
 Print Assumptions C12_source_unchanged.
-Print Assumptions C12_all_required_constant.
+Print Assumptions C12_operators_total.
 
 (* ------------------------------------------------------------------ non-vacuity *)
 
@@ -190,30 +196,44 @@ Example C12_nonvacuous :
    | Raise x => Raise x end) = Raise TypeError.
 Proof. repeat split; vm_compute; reflexivity. Qed.
 
-(* refutation of totality: a source with a Constant *)
+(* a source with a Constant member, and an _ignore_none setting that is only inherited *)
+Definition ex_base : classstmt :=
+  {| s_name := nm "B"; s_bases := [n_Structure];
+     s_members := [(nm "x", SDecl f_int false None None)];
+     s_required := None; s_optional := None; s_additional := None; s_ignore_none := Some true;
+     s_attrs := []; s_keys_of := [] |}.
+
 Definition ex_const : classstmt :=
-  {| s_name := nm "K"; s_bases := [n_Structure];
+  {| s_name := nm "K"; s_bases := [nm "B"];
      s_members := [(nm "a", SDecl f_int false None None); (nm "k", SConst (PNum (NInt 5)))];
      s_required := None; s_optional := None; s_additional := None; s_ignore_none := None;
      s_attrs := []; s_keys_of := [] |}.
 
-Definition ex_k : klass :=
-  Eval vm_compute in
-    match define (fun _ _ => true) [] default_guards genv0 ex_const with Ok k => k | Raise _ => builtin [] end.
+Definition ex_env : option (klass * genv) :=
+  match define (fun _ _ => true) [] default_guards genv0 ex_base with
+  | Ok b => match define (fun _ _ => true) [] default_guards (b :: genv0) ex_const with
+            | Ok k => Some (k, k :: b :: genv0)
+            | Raise _ => None
+            end
+  | Raise _ => None
+  end.
 
-Theorem C12_operators_total_refuted :
-  ~ C12_operators_total (fun _ _ => true) [] default_guards.
-Proof.
-  intro H.
-  assert (Hd : NoDup (field_names ex_k)).
-  { apply has_dup_false_NoDup. vm_compute. reflexivity. }
-  assert (Hs : forall s, derive_stmt ex_k OpAllRequired None = Ok s ->
-                         is_ok (define (fun _ _ => true) [] default_guards genv0 s) = true).
-  { intros s Hs. vm_compute in Hs. discriminate. }
-  pose proof (H genv0 ex_k OpAllRequired None base_ok_genv0 eq_refl Hd Hs) as Ht.
-  vm_compute in Ht. discriminate.
-Qed.
-Print Assumptions C12_operators_total_refuted.
+Example C12_constant_and_inherited_ignore_none :
+  match ex_env with
+  | Some (k, g) =>
+      k_ignore_none k = None /\ resolve_ignore_none g (k_mro k) = true /\
+      match derive (fun _ _ => true) [] default_guards g k OpAllRequired None with
+      | Ok k' => seteq_str (k_required k') [nm "x"; nm "a"; nm "k"] = true /\ k_ignore_none k' = Some true /\
+                 resolve_ignore_none (k' :: g) (k_mro k') = true
+      | Raise _ => False
+      end /\
+      match derive (fun _ _ => true) [] default_guards g k OpPartial None with
+      | Ok k' => k_required k' = [] /\ resolve_ignore_none (k' :: g) (k_mro k') = true
+      | Raise _ => False
+      end
+  | None => False
+  end.
+Proof. vm_compute. repeat split; reflexivity. Qed.
 
 (* ---- the tie to the source, re-checked by the kernel on every run -------------------------------------
    Gen/DeriveSrc.v is re-generated from typedpy/structures/structures_reuse.py and structures.py
@@ -224,93 +244,93 @@ Print Assumptions C12_operators_total_refuted.
 From TP Require Import Base.PyOps Base.PyOps2 Base.PyObj Base.PyOpsDerive Gen.DeriveSrc Struct.DeriveSrcView Struct.DeriveSrcProofs.
 
 Theorem C12_src_partial :
-  forall (k : klass) (pre post : list (pystr * pyval)),
+  forall (k : klass) (inh : option bool) (pre post : list (pystr * pyval)),
          others_ok pre = true ->
          others_ok post = true ->
          src_ok k = true ->
          forall cname : option pystr,
-         x <- PartialMeta_getitem (klass_heap k pre post) (op_class OpPartial) (class_arg cname);;
-         decode_newclass k x = derive_stmt k OpPartial cname.
+         x <- PartialMeta_getitem (klass_heap k inh pre post) (op_class OpPartial) (class_arg cname);;
+         decode_newclass k x = derive_stmt inh k OpPartial cname.
 Proof. exact Partial_src_is_model. Qed.
 
 Theorem C12_src_extend :
-  forall (k : klass) (pre post : list (pystr * pyval)),
+  forall (k : klass) (inh : option bool) (pre post : list (pystr * pyval)),
          others_ok pre = true ->
          others_ok post = true ->
          src_ok k = true ->
          forall cname : option pystr,
-         x <- ExtendMeta_getitem (klass_heap k pre post) (op_class OpExtend) (class_arg cname);;
-         decode_newclass k x = derive_stmt k OpExtend cname.
+         x <- ExtendMeta_getitem (klass_heap k inh pre post) (op_class OpExtend) (class_arg cname);;
+         decode_newclass k x = derive_stmt inh k OpExtend cname.
 Proof. exact Extend_src_is_model. Qed.
 
 Theorem C12_src_allrequired :
-  forall (k : klass) (pre post : list (pystr * pyval)),
+  forall (k : klass) (inh : option bool) (pre post : list (pystr * pyval)),
          others_ok pre = true ->
          others_ok post = true ->
          src_ok k = true ->
          defaults_normal k = true ->
          forall cname : option pystr,
          x <-
-         AllFieldsRequiredMeta_getitem (klass_heap k pre post) (op_class OpAllRequired)
-           (class_arg cname);; decode_newclass k x = derive_stmt k OpAllRequired cname.
+         AllFieldsRequiredMeta_getitem (klass_heap k inh pre post) (op_class OpAllRequired)
+           (class_arg cname);; decode_newclass k x = derive_stmt inh k OpAllRequired cname.
 Proof. exact AllFieldsRequired_src_is_model. Qed.
 
 Theorem C12_src_omit :
-  forall (k : klass) (pre post : list (pystr * pyval)),
+  forall (k : klass) (inh : option bool) (pre post : list (pystr * pyval)),
          others_ok pre = true ->
          others_ok post = true ->
          src_ok k = true ->
          forall (b : bool) (ns : list pystr) (cname : option pystr),
          name_given cname = true ->
-         x <- OmitMeta_getitem (klass_heap k pre post) (op_class (OpOmit ns)) (sel_arg b ns cname);;
-         decode_newclass k x = derive_stmt k (OpOmit ns) cname.
+         x <- OmitMeta_getitem (klass_heap k inh pre post) (op_class (OpOmit ns)) (sel_arg b ns cname);;
+         decode_newclass k x = derive_stmt inh k (OpOmit ns) cname.
 Proof. exact Omit_src_is_model. Qed.
 
 Theorem C12_src_pick :
-  forall (k : klass) (pre post : list (pystr * pyval)),
+  forall (k : klass) (inh : option bool) (pre post : list (pystr * pyval)),
          others_ok pre = true ->
          others_ok post = true ->
          src_ok k = true ->
          forall (b : bool) (ns : list pystr) (cname : option pystr),
          name_given cname = true ->
-         x <- PickMeta_getitem (klass_heap k pre post) (op_class (OpPick ns)) (sel_arg b ns cname);;
-         decode_newclass k x = derive_stmt k (OpPick ns) cname.
+         x <- PickMeta_getitem (klass_heap k inh pre post) (op_class (OpPick ns)) (sel_arg b ns cname);;
+         decode_newclass k x = derive_stmt inh k (OpPick ns) cname.
 Proof. exact Pick_src_is_model. Qed.
 
 Theorem C12_src_structure_omit :
-  forall (k : klass) (pre post : list (pystr * pyval)),
+  forall (k : klass) (inh : option bool) (pre post : list (pystr * pyval)),
          others_ok pre = true ->
          others_ok post = true ->
          src_ok k = true ->
          forall (ns : list pystr) (cname : option pystr),
          name_given cname = true ->
          x <-
-         Structure_omit (klass_heap k pre post) (ref o_clazz) (PTuple (map PStr ns))
-           (class_name_kw cname);; decode_newclass k x = derive_stmt k (OpOmit ns) cname.
+         Structure_omit (klass_heap k inh pre post) (ref o_clazz) (PTuple (map PStr ns))
+           (class_name_kw cname);; decode_newclass k x = derive_stmt inh k (OpOmit ns) cname.
 Proof. exact Structure_omit_src_is_model. Qed.
 
 Theorem C12_src_structure_pick :
-  forall (k : klass) (pre post : list (pystr * pyval)),
+  forall (k : klass) (inh : option bool) (pre post : list (pystr * pyval)),
          others_ok pre = true ->
          others_ok post = true ->
          src_ok k = true ->
          forall (ns : list pystr) (cname : option pystr),
          name_given cname = true ->
          x <-
-         Structure_pick (klass_heap k pre post) (ref o_clazz) (PTuple (map PStr ns))
-           (class_name_kw cname);; decode_newclass k x = derive_stmt k (OpPick ns) cname.
+         Structure_pick (klass_heap k inh pre post) (ref o_clazz) (PTuple (map PStr ns))
+           (class_name_kw cname);; decode_newclass k x = derive_stmt inh k (OpPick ns) cname.
 Proof. exact Structure_pick_src_is_model. Qed.
 
 (* all five operators in one statement *)
 Theorem C12_src_operators :
-  forall (k : klass) (pre post : list (pystr * pyval)) (o : op) (as_list : bool)
+  forall (k : klass) (inh : option bool) (pre post : list (pystr * pyval)) (o : op) (as_list : bool)
            (cname : option pystr),
          others_ok pre = true ->
          others_ok post = true ->
          src_ok k = true ->
          op_ok k o cname = true ->
-         x <- run_operator (klass_heap k pre post) o as_list cname;; decode_newclass k x =
-         derive_stmt k o cname.
+         x <- run_operator (klass_heap k inh pre post) o as_list cname;; decode_newclass k x =
+         derive_stmt inh k o cname.
 Proof. exact operators_src_is_model. Qed.
 
 (* the model's derive = the source's operator, decoded, followed by the ordinary class definition *)
@@ -323,24 +343,24 @@ Theorem C12_src_derive_factors :
          src_ok k = true ->
          op_ok k o cname = true ->
          derive re_match e gd g k o cname =
-         x <- run_operator (klass_heap k pre post) o as_list cname;;
+         x <- run_operator (klass_heap k (bases_ignore_none g k) pre post) o as_list cname;;
          s <- decode_newclass k x;; define re_match e gd g s.
 Proof. exact derive_is_source_then_define. Qed.
 
 (* a source that is not a Structure class: TypeError from every operator *)
 Theorem C12_src_not_structure :
-  forall (k : klass) (pre post : list (pystr * pyval)),
+  forall (k : klass) (inh : option bool) (pre post : list (pystr * pyval)),
          k_is_struct k = false ->
          forall (b : bool) (ns : list pystr) (cname : option pystr),
-         PartialMeta_getitem (klass_heap k pre post) (op_class OpPartial) (class_arg cname) =
+         PartialMeta_getitem (klass_heap k inh pre post) (op_class OpPartial) (class_arg cname) =
          Raise TypeError /\
-         AllFieldsRequiredMeta_getitem (klass_heap k pre post) (op_class OpAllRequired)
+         AllFieldsRequiredMeta_getitem (klass_heap k inh pre post) (op_class OpAllRequired)
            (class_arg cname) = Raise TypeError /\
-         ExtendMeta_getitem (klass_heap k pre post) (op_class OpExtend) (class_arg cname) =
+         ExtendMeta_getitem (klass_heap k inh pre post) (op_class OpExtend) (class_arg cname) =
          Raise TypeError /\
-         OmitMeta_getitem (klass_heap k pre post) (op_class (OpOmit ns)) (sel_arg b ns cname) =
+         OmitMeta_getitem (klass_heap k inh pre post) (op_class (OpOmit ns)) (sel_arg b ns cname) =
          Raise TypeError /\
-         PickMeta_getitem (klass_heap k pre post) (op_class (OpPick ns)) (sel_arg b ns cname) =
+         PickMeta_getitem (klass_heap k inh pre post) (op_class (OpPick ns)) (sel_arg b ns cname) =
          Raise TypeError.
 Proof. exact operators_src_not_structure. Qed.
 
